@@ -62,6 +62,13 @@ def ex(n):
         return n["value"]
     if k == "SubstNonTypeTemplateParmExpr":
         return "N"
+    if k == "UnaryOperator" and n["opcode"] == "*" and strip(n["inner"][0])["kind"] == "CXXThisExpr":
+        return "THIS"
+    if k == "BinaryOperator" and n["opcode"] in ("!=", "==") and strip(n["inner"][0])["kind"] == "CXXThisExpr":
+        r = strip(n["inner"][1])   # this != std::addressof(o)
+        if r["kind"] == "CallExpr" and callee(r)[0] == "addressof":
+            return "(negb self)" if n["opcode"] == "!=" else "self"
+        raise U("comparison of this")
     if k == "UnaryOperator" and n["opcode"] == "!":
         return "(negb %s)" % ex(n["inner"][0])
     if k == "BinaryOperator":
@@ -133,6 +140,10 @@ MODE = [""]
 
 
 def ret(e):
+    if MODE[0] == "assign":
+        if e == "THIS":
+            return "(inl (vec, set))"
+        raise U("return of " + e + " in operator=")
     if e.startswith("SETINS "):
         return "(set_ins cmp vec set %s)" % e[len("SETINS "):]
     if e.startswith("PAIR "):
@@ -168,10 +179,29 @@ def block(stmts, k):
         if e is None:
             raise U("if without else and without continuation")
         return "(if %s then %s\n else %s)" % (c, t, e)
+    if kind == "CXXThrowExpr" and not s.get("inner"):   # throw; in a handler
+        return "(inr (vec, set))"
+    if kind == "CXXTryStmt":
+        # thr = Some (vec', set'): an operation inside the try block threw and left the two containers as vec', set' (ANY
+        # contents: their copy assignment only has the basic guarantee); the handler runs on them
+        body, catch = s["inner"][0], s["inner"][1]
+        if len(s["inner"]) != 2 or catch["kind"] != "CXXCatchStmt":
+            raise U("try shape")
+        restk = block(rest, k) if (rest or k is not None) else None
+        return "(match thr with\n | Some (vec, set) => %s\n | None => %s\n end)" % (block([catch["inner"][-1]], None), block([body], restk))
     t = strip(s)
+    if t["kind"] == "CXXOperatorCallExpr" and callee(t)[0] == "operator=":
+        a, b = strip(t["inner"][1]), strip(t["inner"][2])
+        if a["kind"] == "MemberExpr" and b["kind"] == "MemberExpr" and a.get("name") == b.get("name") and a.get("name") in ("_vec", "_set") \
+                and strip(a["inner"][0])["kind"] == "CXXThisExpr" and strip(b["inner"][0])["kind"] == "DeclRefExpr":
+            var = "vec" if a["name"] == "_vec" else "set"
+            return "let %s := o%s in\n%s" % (var, var, block(rest, k))
+        raise U("operator= shape")
     if t["kind"] == "CXXMemberCallExpr":
         nm, base = callee(t)
         m = member_of(base)
+        if m in ("_vec", "_set") and nm == "clear" and len(t["inner"]) == 1:
+            return "let %s := [] in\n%s" % ("vec" if m == "_vec" else "set", block(rest, k))
         if m == "this" and nm == "grow" and len(t["inner"]) == 1:
             return "let '(vec, set) := grow_p cmp vec set in\n%s" % block(rest, k)
         if m == "_vec" and nm in ("push_back", "emplace_back") and len(t["inner"]) == 2:
@@ -211,6 +241,7 @@ def main():
             ("find", "find_gen", "(cmp : Z -> Z -> bool) (vec set : list Z) (k : Z) : Z", "::const_reference) const"),
             ("contains", "contains_gen", "(cmp : Z -> Z -> bool) (vec set : list Z) (k : Z) : bool", "::const_reference) const"),
             ("erase", "erase_key_gen", "(cmp : Z -> Z -> bool) (vec set : list Z) (v : Z) : list Z * list Z * Z", "::size_type (amc::SmallSet<int, 3>::const_reference)"),
+            ("operator=", "copy_assign_gen", "(vec set ovec oset : list Z) (self : bool) (thr : option (list Z * list Z)) : list Z * list Z + list Z * list Z", "(const amc::SmallSet<int, 3> &)"),
         ]
         for cname, gname, sig, tf in specs:
             found = None
@@ -226,7 +257,7 @@ def main():
             try:
                 body = [c for c in found["inner"] if c["kind"] == "CompoundStmt"][0]
                 stmts = body.get("inner") or []
-                MODE[0] = "erase" if gname == "erase_key_gen" else ""
+                MODE[0] = "erase" if gname == "erase_key_gen" else ("assign" if gname == "copy_assign_gen" else "")
                 if len(stmts) == 1 and stmts[0]["kind"] == "ReturnStmt" and gname in ("isSmall_gen", "isSmallContFull_gen", "find_gen", "contains_gen"):
                     g = ex(stmts[0]["inner"][0])
                 else:
